@@ -103,4 +103,14 @@ Spec == Init /\ [][Next]_vars
 \* design-level invariants, evaluated in EVERY state TLC visits (they hold on every record of a
 \* run on the unchanged tree; a violation is reported by TLC with the state):
 StackInv == ForksWithinStacks(vm) /\ StacksWF(vm)
+
+\* the cancellation / iterator protocol (C07) as invariants of the machine:
+\*   Prompt    the poll that sees the cancelled context ends the Next in progress with the context error
+\*   Terminal  the context error is the last thing the iterator ever returns, and it leaves no fork behind
+\*   ExhaustedForever  once Next has returned false nothing changes any more (the machine is at a fixpoint)
+Prompt == vm.cancel > 0 /\ vm.steps >= vm.cancel => Len(vm.out) > 0 /\ vm.out[Len(vm.out)].t = "ctxerr"
+Terminal == /\ \A i \in 1..(Len(vm.out) - 1) : vm.out[i].t # "ctxerr"
+            /\ (Len(vm.out) > 0 /\ vm.out[Len(vm.out)].t = "ctxerr" => Len(vm.forks) = 0 /\ vm.pc = Len(vm.code) + 1)
+ExhaustedForever == vm.status = "done" => Step(vm) = vm /\ Len(vm.forks) = 0
+ProtocolInv == Prompt /\ Terminal /\ ExhaustedForever
 =============================================================================
